@@ -833,6 +833,33 @@ pub fn part_evalfp(out: &mut Out, o: &Opts) {
         emit_eval(out, f, &[]);
     }
     let mut rng = Rng::new(o.seed ^ 0x76);
+    // nested and alternating fixed points whose inner body mentions the outer name, sibling inner
+    // fixed points on one binder name, three levels
+    let nn = if o.thorough { 40_000 } else { 2_500 };
+    for k in 0..nn {
+        let fpk = |rng: &mut Rng| *rng.pick(&["lfp", "gfp", "mu", "nu"]);
+        let names = ["p", "q", "x", "y"];
+        let body = |rng: &mut Rng, pos: &[&str], depth: u32| {
+            let mut s = String::new();
+            let mut m = Some(Mono { pos: pos.iter().map(|x| x.to_string()).collect(), neg: vec![], none: vec![] });
+            gen_sub(rng, depth, &names, &mut m, &mut s);
+            s
+        };
+        let op = |rng: &mut Rng| *rng.pick(&["&", "|"]);
+        let f = match k % 4 {
+            0 => format!("{} x # {} y # {}", fpk(&mut rng), fpk(&mut rng), body(&mut rng, &["x", "y"], 3)),
+            1 => format!("{} x # ({}) {} {} y # {}", fpk(&mut rng), body(&mut rng, &["x"], 2), op(&mut rng), fpk(&mut rng), body(&mut rng, &["x", "y"], 2)),
+            2 => format!(
+                "{} x # (({} y # {}) {} ({} y # {})) {} x",
+                fpk(&mut rng), fpk(&mut rng), body(&mut rng, &["x", "y"], 2), op(&mut rng), fpk(&mut rng), body(&mut rng, &["x", "y"], 2), op(&mut rng)
+            ),
+            _ => format!(
+                "{} x # {} y # ({}) {} {} q # {}",
+                fpk(&mut rng), fpk(&mut rng), body(&mut rng, &["x", "y"], 2), op(&mut rng), fpk(&mut rng), body(&mut rng, &["x", "y", "q"], 2)
+            ),
+        };
+        emit_eval(out, &f, &[]);
+    }
     let n = if o.thorough { 60_000 } else { 3_000 };
     let mut made = 0;
     while made < n {
